@@ -109,9 +109,12 @@ Record shape := SH {
   n_left : nat;     (* leftovers a client holds *)
   n_win : nat;      (* chunks in the closed output channel the client may still receive (<= BufferMaxNumChunksInMemory) *)
   has_dir : bool;   (* the queue directory is usable *)
-  worker_live : bool (* the pipeline workers keep receiving from their channels (they have no blocking point of
+  worker_live : bool; (* the pipeline workers keep receiving from their channels (they have no blocking point of
                         their own: bufferer.Accept never blocks); false = a stalled worker, the "BUG" branch of
                         channelInputBuffer.Flush *)
+  late_abort : bool   (* code variant of ClientWorker.runSession: true = a session that becomes active when the stop
+                        signal is already raised is aborted at once (repair caaa160), false = the original code, where
+                        only the session active at the moment of the signal is aborted *)
 }.
 
 (* where the client is when the output side is closed *)
@@ -156,9 +159,15 @@ Definition client (p : params) (sh : shape) (ph : cphase18) : wg :=
          | S _ => Seq (send_aborted p) (after_failed_send p sh)
          end)
   | PSending => Seq (send_aborted p) (after_failed_send p sh)
-  | PSendingLate => Seq (send_live p) (Seq (Wait true None) (Seq (collect p) (final sh)))
+  | PSendingLate =>
+    if late_abort sh then Seq (send_aborted p) (after_failed_send p sh)
+    else Seq (send_live p) (Seq (Wait true None) (Seq (collect p) (final sh)))
   | PConnecting => Seq (Wait true (Some (t_conn p))) (final sh)
   | PConnectingLate =>
+    if late_abort sh then
+      (* the new session is aborted when it is stored: the first re-send fails at once and ends it *)
+      Seq (Wait true (Some (t_conn p))) (Seq (send_aborted p) (after_failed_send p sh))
+    else
     (* resendLeftovers: select { inputClosed | leftover }: in the worst case every leftover is sent before the
        stop case is chosen, each send bounded only by its deadline; then "stop requested (recovery stage)" *)
     Seq (Wait true (Some (t_conn p)))
@@ -286,7 +295,7 @@ Definition opt_text (o : option Z) : bytes :=
   match o with Some z => dec_of_Z z | None => [105;110;102]%N (* inf *) end.
 
 (* zargs: d0 d1 (descriptor, ignored)  phase  t_in t_ch t_bs t_conn t_send t_ack t_ackstop t_retry
-          n_conn n_flush n_pipe n_out n_left n_win has_dir worker_live
+          n_conn n_flush n_pipe n_out n_left n_win has_dir worker_live late_abort
    output: ok:bs=<bound of this scenario>;b=<B>;cl=<bound of the client alone>;class=<instant|deadline|never> *)
 Definition run_case_C18 (c : case) : bytes :=
   match c_kind c with
@@ -295,7 +304,7 @@ Definition run_case_C18 (c : case) : bytes :=
     let ph := phase_of (z 2%nat) in
     let p := PR (z 3%nat) (z 4%nat) (z 5%nat) (z 6%nat) (z 7%nat) (z 8%nat) (z 9%nat) (z 10%nat) in
     let sh := SH (Z.to_nat (z 11%nat)) (Z.to_nat (z 12%nat)) (Z.to_nat (z 13%nat)) (Z.to_nat (z 14%nat))
-                 (Z.to_nat (z 15%nat)) (Z.to_nat (z 16%nat)) (negb (z 17%nat =? 0)) (negb (z 18%nat =? 0)) in
+                 (Z.to_nat (z 15%nat)) (Z.to_nat (z 16%nat)) (negb (z 17%nat =? 0)) (negb (z 18%nat =? 0)) (negb (z 19%nat =? 0)) in
     if negb (params_ok p) then bad_case_output else
     let bs := bnd (agent p sh ph) in
     let cl := bnd (client p sh ph) in
